@@ -1835,6 +1835,37 @@ func (fv *FuncVerifier) execRange(st *State, env *Env, x *ast.RangeStmt, label s
 		}
 	case *types.Slice, *types.Array:
 		s := fv.eval(st, env, x.X)
+		// a range over a LITERAL sequence of at most four elements (the packed variadic arguments of an inlined helper,
+		// `for _, part := range parts` with parts = ["//go:", directive]) that carries no loop clause is executed
+		// element by element instead of being cut at an invariant: nothing is lost to a havoc
+		if elems, isLit := fv.litElems[s.S]; isLit && len(elems) <= 4 && fv.loopHasNoClauses(ord) {
+			if id, ok := ast.Unparen(x.X).(*ast.Ident); !ok || !ws.vars[env.info.ObjectOf(id)] {
+				cur := []*State{st}
+				var outs []Outcome
+				for i, e := range elems {
+					var next []*State
+					for _, c := range cur {
+						bindIter(c, kobj, IntLit(int64(i)))
+						bindIter(c, vobj, e)
+						for _, o := range fv.execBlock(c, env, x.Body.List) {
+							switch {
+							case o.kind == okNormal || (o.kind == okContinue && (o.label == "" || o.label == label)):
+								next = append(next, o.st)
+							case o.kind == okBreak && (o.label == "" || o.label == label):
+								outs = append(outs, Outcome{st: o.st, kind: okNormal})
+							default:
+								outs = append(outs, o)
+							}
+						}
+					}
+					cur = next
+				}
+				for _, c := range cur {
+					outs = append(outs, Outcome{st: c, kind: okNormal})
+				}
+				return fv.mergeNormals(outs)
+			}
+		}
 		st.ghost[itName] = IntLit(0)
 		return fv.runLoopR(st, env, lc, label, ws, havocIt,
 			func(st *State) {
@@ -2224,6 +2255,19 @@ func (fv *FuncVerifier) autoIterInvariant(head *State, g Term, lc *loopCtx, body
 	}
 	fv.note("engine-derived iteration summary assumed at the head of loop %d (%s)", lc.ord, fv.pos(lc.bodyPos))
 	return Term{q, SBool}, true
+}
+
+// loopHasNoClauses: the contract of the function under verification says nothing about loop ord.
+func (fv *FuncVerifier) loopHasNoClauses(ord int) bool {
+	if fv.fn.Contr == nil {
+		return true
+	}
+	for _, cl := range fv.fn.Contr.Clauses {
+		if cl.Loop == ord && cl.Lit == 0 && !cl.Off {
+			return false
+		}
+	}
+	return true
 }
 
 var freshSym = regexp.MustCompile(`^[A-Za-z0-9_]+![0-9]+$`)
